@@ -130,7 +130,7 @@ def new_sock(b, scr):
     from pyvc import sbytes as sb
     b.st.ghost["wire"] = sb.SBytes([], False)
     b.st.ghost["sock_calls"] = 0
-    return b.raw_new(Sock)
+    return b.raw_new(Sock, shut=0, calls=0, dead=False)
   return Sock(scr)
 
 
